@@ -102,6 +102,59 @@ def register3(E):
         return base_next(it)
     E.it_next = it_next3
 
+    # ---- ordering
+    PRIM = r'(usize|u8|u16|u32|u64|u128|isize|i8|i16|i32|i64|i128|char|bool)'
+    def prim_lt(ty, x, y):
+        if isinstance(x, bool): x = int(x)
+        if isinstance(y, bool): y = int(y)
+        if isinstance(x, int) and isinstance(y, int): return x < y
+        if z3.is_bv(x) or z3.is_bv(y): return (x < y) if ty.startswith('i') else z3.ULT(x, y)
+        return x < y
+    def prim_eq(x, y):
+        r = (x == y); return bool(r) if isinstance(r, bool) else r
+    def ordering(v): return Enum(v, [], 'Ordering')
+    @R(r'^<' + PRIM + r' as (Partial)?Ord>::(partial_)?cmp$')
+    def _(e, c, a):
+        ty = re.match(r'^<(\w+) ', c).group(1); x, y = deref(a[0]), deref(a[1])
+        if e.branch(prim_lt(ty, x, y)): o = ordering('Less')
+        elif e.branch(prim_eq(x, y)): o = ordering('Equal')
+        else: o = ordering('Greater')
+        return SOME(o) if 'partial_cmp' in c else o
+    @R(r'^<' + PRIM + r' as PartialOrd>::(lt|le|gt|ge)$')
+    def _(e, c, a):
+        ty = re.match(r'^<(\w+) ', c).group(1); x, y = deref(a[0]), deref(a[1]); op = c.rsplit('::', 1)[1]
+        lt, gt = prim_lt(ty, x, y), prim_lt(ty, y, x)
+        neg = lambda b: (not b) if isinstance(b, bool) else z3.Not(b)
+        return {'lt': lt, 'gt': gt, 'le': neg(gt), 'ge': neg(lt)}[op]
+    @R(r'^<' + PRIM + r' as Ord>::(max|min)$')
+    def _(e, c, a):
+        ty = re.match(r'^<(\w+) ', c).group(1); x, y = a[0], a[1]; lt = prim_lt(ty, x, y)
+        if isinstance(lt, bool): return (y if lt else x) if c.endswith('max') else (x if lt else y)
+        return z3.If(lt, y, x) if c.endswith('max') else z3.If(lt, x, y)
+    @R(r' as PartialOrd(<.*>)?>::(lt|le|gt|ge)$| as Ord>::(max|min)$')
+    def _(e, c, a):
+        """default methods of PartialOrd/Ord on a crate type: go through the type's own partial_cmp/cmp (MIR)"""
+        x = deref(a[0]); ty = getattr(x, 'ty', None); op = c.rsplit('::', 1)[1]
+        if ty is None: raise EngineError('ordering of ' + repr(x))
+        if op in ('max', 'min'):
+            f = e._find_impl('cmp', 'Ord', ty, 2)
+            if f is None: raise EngineError('no Ord::cmp for ' + ty)
+            o = e.call_mir(f, [Ref([a[0]], 0), Ref([a[1]], 0)]).v
+            return (a[1] if o != 'Greater' else a[0]) if op == 'max' else (a[0] if o != 'Greater' else a[1])
+        f = e._find_impl('partial_cmp', 'PartialOrd', ty, 2)
+        if f is None: raise EngineError('no PartialOrd::partial_cmp for ' + ty)
+        r = e.call_mir(f, [a[0] if isinstance(a[0], Ref) else Ref([a[0]], 0), a[1] if isinstance(a[1], Ref) else Ref([a[1]], 0)])
+        if r.v != 'Some': return False
+        o = r.f[0].v
+        return {'lt': o == 'Less', 'le': o != 'Greater', 'gt': o == 'Greater', 'ge': o != 'Less'}[op]
+    @R(r'^(std::cmp::)?Ordering::(then|then_with|is_eq|is_ne|is_lt|is_le|is_gt|is_ge|reverse)')
+    def _(e, c, a):
+        o = deref(a[0]).v; op = re.search(r'Ordering::(\w+)', c).group(1)
+        if op == 'then': return a[0] if o != 'Equal' else a[1]
+        if op == 'then_with': return a[0] if o != 'Equal' else e.closure_call(a[1], [])
+        if op == 'reverse': return ordering({'Less': 'Greater', 'Greater': 'Less', 'Equal': 'Equal'}[o])
+        return {'is_eq': o == 'Equal', 'is_ne': o != 'Equal', 'is_lt': o == 'Less', 'is_le': o != 'Greater', 'is_gt': o == 'Greater', 'is_ge': o != 'Less'}[op]
+
     # ---- str family (byte lists; lengths concrete, bytes possibly symbolic)
     def pat_bytes(p):
         p = deref(p)
